@@ -79,6 +79,11 @@ KINDS = {
     "relative_existing": ("check", "NOT"),                  # exists relative to the cwd (/verif)
     "relative_existing2": ("vlib/driver.py", "NOT"),
     "relative_missing":  ("foo/bar", "NOT"),
+    # unreachable targets whose stat() fails with something else than ENOENT / EACCES
+    "under_file":        ("$T/reg0/sub", "NOT"),            # ENOTDIR: a path component is a regular file
+    "under_file_deleted": ("$T/reg0/sub (deleted)", "NOT"),  # e.g. dir removed and a file created in its place
+    "symlink_loop":      ("$T/loop/x", "NOT"),              # ELOOP
+    "name_too_long":     ("$T/" + "n" * 300, "NOT"),        # ENAMETOOLONG
 }
 FILE_KINDS = ("reg", "deleted_literal", "deleted_recreated")
 KIND_WEIGHTS = (["reg"] * 10 + ["deleted_literal"] * 2 + ["deleted_recreated"] * 2 + ["pipe"] * 3 + ["socket"] * 3
@@ -259,6 +264,7 @@ def setup():
             f.write(b"x" * 10)
     os.mkdir(os.path.join(tmp, "dir0"))
     os.mkfifo(os.path.join(tmp, "fifo0"))
+    os.symlink("loop", os.path.join(tmp, "loop"))
     return _env
 
 
